@@ -167,6 +167,18 @@ type Widths struct {
 	G float32 `json:"g,omitempty"`
 }
 
+// AllFixed: every field has a fixed width on the wire (a float32 is carried as a double).
+type AllFixed struct {
+	A float32 `json:"a"`
+	B float64 `json:"b"`
+	C bool    `json:"c"`
+	D float32 `json:"d"`
+	E struct {
+		X float64 `json:"x"`
+		Y bool    `json:"y"`
+	} `json:"e"`
+}
+
 type Nested struct {
 	In  Inner            `json:"in"`
 	PIn *Inner           `json:"pin"`
@@ -344,6 +356,7 @@ func init() {
 	reg[EmbedPtr]("EmbedPtr", true)
 	reg[BigStrings]("BigStrings", true)
 	reg[Widths]("Widths", true)
+	reg[AllFixed]("AllFixed", true)
 	reg[Nested]("Nested", true)
 	reg[PtrShapes]("PtrShapes", true)
 	reg[MapShapes]("MapShapes", true)
